@@ -22,7 +22,7 @@ import (
 )
 
 // ErrKinds lists the generated kinds; the first half are ordinary, the second half closeable-looking.
-var ErrKinds = []string{"plain", "wrapped", "multi", "ueof", "canceled", "refused",
+var ErrKinds = []string{"plain", "wrapped", "multi", "ueof", "canceled", "refused", "ctl", "nonascii",
 	"eof", "pipe", "timeout", "optimeout", "deadline", "ctxdeadline", "multieof", "dnstimeout"}
 
 const reqErrMark = "verif-modifier-error"
@@ -44,6 +44,10 @@ func modErr(kind, mark string) error {
 		m.Add(io.EOF)
 		m.Add(io.ErrClosedPipe)
 		return m
+	case "ctl": // a text with control characters, quotes and a backslash
+		return errors.New(mark + ": line one\r\nline two\x00\x1b[0m \"quoted\" back\\slash\ttab")
+	case "nonascii":
+		return errors.New(mark + ": caf\u00e9 \u2013 \xff\xfe")
 	case "ueof":
 		return io.ErrUnexpectedEOF
 	case "canceled":
